@@ -25,12 +25,30 @@ _RULE_CACHE: Dict[str, object] = {}
 def run_rule(ctx: Ctx, rule: str):
     if rule not in _RULE_CACHE:
         mod = props.rule_module(rule)
-        col = mod.run(ctx)
-        mn = getattr(mod, "MIN_INSTANCES", 1)
-        if len(col.obs) < mn:
-            raise AnalysisError(f"rule {rule} matched {len(col.obs)} instances, fewer than the {mn} confirmed by hand: the rule went vacuous")
+        try:
+            col = mod.run(ctx)
+            mn = getattr(mod, "MIN_INSTANCES", 1)
+            if len(col.obs) < mn:
+                raise AnalysisError(f"rule {rule} matched {len(col.obs)} instances, fewer than the {mn} confirmed by hand: the rule went vacuous")
+        except AnalysisError as e:
+            # no verdict from this rule: recorded as an unknown obligation of every property that
+            # uses it (exit 2 unless another rule reports a violation, which dominates)
+            col = report.Collector(rule)
+            col.unk("", "mosaik.*", f"rule {rule} could not be applied", str(e), "")
+            col.obs[0].oid = rule + "/"
+            col.fatal = True
         _RULE_CACHE[rule] = col
     return _RULE_CACHE[rule]
+
+
+def _print(*a) -> None:
+    try:
+        print(*a)
+    except BrokenPipeError:      # reader went away (| head): the verdict is the exit code
+        try:
+            sys.stdout = open(os.devnull, "w")
+        except Exception:
+            pass
 
 
 def check(prop: str, tier: str, seed: int, repo: str | None = None, write: bool = True) -> int:
@@ -44,7 +62,7 @@ def check(prop: str, tier: str, seed: int, repo: str | None = None, write: bool 
     per_rule = {}
     for r in rules:
         col = run_rule(ctx, r)
-        sel = [o for o in col.obs if props.selected(prop, o.oid)]
+        sel = [o for o in col.obs if props.selected(prop, o.oid) or getattr(col, "fatal", False)]
         per_rule[r] = {"instances": len(sel), "discharged": sum(o.verdict == DISCHARGED for o in sel)}
         per_rule[r].update(col.info)
         obs += sel
@@ -66,21 +84,21 @@ def check(prop: str, tier: str, seed: int, repo: str | None = None, write: bool 
                 violations.append(o)
         elif o.verdict == UNKNOWN:
             unknowns.append(o)
-    print(f"[mverif] property {prop} tier={tier}: {prog.stats()} rules={','.join(rules)} "
+    _print(f"[mverif] property {prop} tier={tier}: {prog.stats()} rules={','.join(rules)} "
           f"obligations={len(obs)} discharged={sum(o.verdict == DISCHARGED for o in obs)} "
           f"known={len(knowns)} violated={len(violations)} unknown={len(unknowns)}")
     for o in obs:
         if o.verdict == DISCHARGED:
-            print("  ok   " + o.line())
+            _print("  ok   " + o.line())
     for o in knowns:
         k = report.known_match(o, prop, known)
-        print(f"KNOWN-FINDING: property={prop} {k.get('id', '')} {o.oid} {o.func}: {o.construct} -- {o.detail}")
+        _print(f"KNOWN-FINDING: property={prop} {k.get('id', '')} {o.oid} {o.func}: {o.construct} -- {o.detail}")
     for o in unknowns:
-        print(f"ANALYSIS-ERROR: property={prop} {o.line()}")
+        _print(f"ANALYSIS-ERROR: property={prop} {o.line()}")
     for o in violations:
         path = report.write_replay(prop, o)
-        print(f"VIOLATION property={prop} replay={path}")
-        print("  " + o.line())
+        _print(f"VIOLATION property={prop} replay={path}")
+        _print("  " + o.line())
     if write:
         cov = {
             "explanation": props.EXPLANATION.get(prop, "") or (
@@ -104,7 +122,7 @@ def check(prop: str, tier: str, seed: int, repo: str | None = None, write: bool 
     if unknowns:
         return 2
     if selftest is not None and selftest.get("failed"):
-        print(f"ANALYSIS-ERROR: property={prop} checker self-test failed: {selftest['failed']}")
+        _print(f"ANALYSIS-ERROR: property={prop} checker self-test failed: {selftest['failed']}")
         return 2
     return 0
 
